@@ -21,6 +21,14 @@
 //! Oracle (independent of the Lean model): a straightforward re-aggregation of the history per
 //! flow, with its own flow matcher, compared with the integer getters, plus the conservation laws
 //! of C05, the hop window of C10 and the float getters against two-pass formulas.
+//! Oracle failure kinds: `panic` (a panic on a history of `RoundWF` rounds only), `c05-*`, `c10-*`,
+//! `c15-*`, `c19-nat-status`.  `c05-stddev`: `stddev_ms()²` is compared with the two-pass sample
+//! variance `Σ(d − d̄)²/(n−1)`, computed exactly from the integer rtts (`(nΣd² − (Σd)²)/(n(n−1))` in
+//! `u128`), relative tolerance 1e-9 (plus the cancellation floor `1e-12·d̄²` of `f64` Welford).
+//! Before the repair of state.rs:637-638 (`m2` used the new mean in both factors) this check
+//! failed on every hop with ≥ 2 distinct rtts (Lean: `TV.Props.C05.welford_m2_two_pass`).
+//! Malformed rounds (ttl 0, ttl 255, largest_ttl < lowest or = 255) and unknown flow ids are issued
+//! on purpose: the implementation panics, the model must answer `panic` too; they are not failures.
 use crate::clock;
 use crate::strategy::{addr_of, id_of, show_slot};
 use crate::util::{guarded, Rng, Run};
@@ -459,9 +467,16 @@ fn check_flow<'a>(run: &mut Run, ctx: &str, st: &State, id: FlowId, hist: &Hist,
             let mut ji = 0f64;
             for &j in &js { ji += (j as f64 / 1e6).max(0.5) - (ji + 8.0) / 16.0; }
             if (h.jinta() - ji).abs() > 1e-9 * ji.abs().max(1.0) { fail("c05-jinta", format!("{hctx}: {} expected {ji}", h.jinta())); }
-            let sd = if rc > 1 { (ms.iter().map(|x| (x - mean) * (x - mean)).sum::<f64>() / (rc - 1) as f64).sqrt() } else { 0.0 };
-            if (h.stddev_ms() - sd).abs() > 1e-6 * sd.abs().max(1e-3) {
-                fail("c05-stddev", format!("{hctx}: stddev_ms {} but the sample standard deviation of {} rtts is {sd}", h.stddev_ms(), rc));
+            // sample variance in ms², exact numerator from the integer rtts (ns)
+            let var = if rc > 1 {
+                let n = rc as u128;
+                let s1: u128 = r.rtts.iter().map(|&d| u128::from(d)).sum();
+                let s2: u128 = r.rtts.iter().map(|&d| u128::from(d) * u128::from(d)).sum();
+                (n * s2 - s1 * s1) as f64 / (n * (n - 1)) as f64 / 1e12
+            } else { 0.0 };
+            let got = h.stddev_ms() * h.stddev_ms();
+            if (got - var).abs() > 1e-9 * var.abs().max(got.abs()) + 1e-12 * mean * mean {
+                fail("c05-stddev", format!("{hctx}: stddev_ms² {got} but the sample variance of {rc} rtts is {var} ms²"));
             }
         }
     }
